@@ -66,7 +66,7 @@ def build_problem(case):
     rng = np.random.default_rng(case['seed'])
     if case['kind'] == 'single':
         P, feats = wl.single_assembly(
-            rng, max_rings=(12 if case.get('big') else 8))
+            rng, coolant_pool=True, max_rings=(12 if case.get('big') else 8))
     elif case['kind'] == 'refine':
         P, feats = wl.single_assembly(rng, tdep=True, gap='none', lf=False,
                                       regions=False, max_rings=5,
